@@ -33,8 +33,8 @@ func registerBW() {
 		Assume: []string{"world addresses are generated in canonical spelling (asserted at run time, else the run is skipped)", "fetcher metadata always has a non-empty commit id when present"},
 		Real:   real, Sim: bwSim}
 	plans["C14"] = &Plan{ID: "C14", Level: "exploration",
-		Legs:   []Leg{{World: "bw", Profile: "small", Quick: 2500, Weight: 2, Index: true}, {World: "bw", Profile: "clean", Quick: 2500, Weight: 3}, {World: "bw", Profile: "faultsweep", Quick: 8, Weight: 1}, {World: "bw", Profile: "errors", Quick: 800, Weight: 1}},
-		Rule:   "each evaluation = one fault-free build; over the peers' call log: one fetch per distinct package of the reference closure (none for others), one version-list request per registry package, one source-address request per selected version, one analysis per (source, finder) pair of the closure; over the tracer's history: every start followed by exactly one success/failure, 'already' only after a success; total peer calls + trace events within 10 x (Add calls + declared dependencies) + 10, and no scheduler deadlock. 'small' seeds index the family <=3 packages x <=2 locations x edge subsets.",
+		Legs:   []Leg{{World: "bw", Profile: "small", Quick: 2500, Weight: 2, Index: true}, {World: "bw", Profile: "clean", Quick: 2500, Weight: 3}, {World: "bw", Profile: "faultsweep", Quick: 8, Weight: 1}, {World: "bw", Profile: "errors", Quick: 800, Weight: 1}, {World: "bw", Profile: "trees", Quick: 800, Weight: 1}},
+		Rule:   "each evaluation = one fault-free build (also builds that must refuse a fetched tree: the trace clauses hold there too); over the peers' call log: one fetch per distinct package of the reference closure (none for others), one version-list request per registry package, one source-address request per selected version, one analysis per (source, finder) pair of the closure; over the tracer's history: every start followed by exactly one success/failure, 'already' only after a success; total peer calls + trace events within 10 x (Add calls + declared dependencies) + 10, and no scheduler deadlock. 'small' seeds index the family <=3 packages x <=2 locations x edge subsets.",
 		Assume: []string{"finder calls are keyed by (package directory, sub-path, finder); coalesced twin packages share a key and the expected count is the number of model pairs mapping to it"},
 		Real:   real, Sim: bwSim}
 	plans["C17"] = &Plan{ID: "C17", Level: "exploration",
